@@ -54,7 +54,8 @@ fn chien_search<T: Into<GF> + Copy>(c: &[T]) -> Vec<GF> {
         out.push(GF(0));
     }
     if c.len() == 2 {
-        if c[1].into() != GF(0) {
+        // a vanishing leading coefficient means the polynomial is constant, no (more) zeros
+        if c[1].into() != GF(0) && c[0].into() != GF(0) {
             out.push(-c[1].into() / c[0].into());
         }
         return out;
